@@ -41,6 +41,12 @@ Theorem c15_every_byte_once : forall fuel proc m8 x8 addr bs, (length bs < fuel)
 Proof. exact dasm_accounts. Qed.
 Print Assumptions c15_every_byte_once.
 
+(* a DS line stands for exactly the bytes it replaces: more than one copy of the first byte, nothing else *)
+Theorem c15_ds_line_is_its_bytes : forall bs n e, data_run_ex bs = (1, n, e) ->
+  e = 0 /\ Forall (fun b => b = hd 0 bs) (takeN n bs) /\ 1 < n.
+Proof. exact ds_run_is_uniform. Qed.
+Print Assumptions c15_ds_line_is_its_bytes.
+
 (* non-vacuity: LDA $011234 on the 65816 (a bank-crossing long address) and a backward branch *)
 Example c15_example_long :
   exists i, dasm_one 3 true true 768 175 [52; 18; 1] 3 = Some (DInstr i 3) /\ asm_instr false 3 true true 768 i = ROk [175; 52; 18; 1].
